@@ -29,7 +29,7 @@ ChecksumBits(idx, wb, csdiv) ==
   IN SubSeq(bits, entBits + 1, Len(bits))
 
 \* does the embedded checksum match, given the hash bytes of the candidate
-ChecksumOK(idx, hashBytes, wb, csdiv) ==
+Bip39ChecksumOK(idx, hashBytes, wb, csdiv) ==
   LET c == ChecksumBits(idx, wb, csdiv) IN c = SubSeq(BytesToBits(hashBytes), 1, Len(c))
 
 -----------------------------------------------------------------------------
